@@ -674,3 +674,102 @@ Proof. unfold f14_doc. repeat constructor. Qed.
 (* F17: a map header announcing one member, and nothing else *)
 Lemma f17_model : run_obj_root no_narrow id_widen skip_all [0x81] RNil = FTerm.
 Proof. vm_compute. reflexivity. Qed.
+
+(* ---------- the statements of Properties_C03 that the current code falsifies ---------- *)
+(* full strength: EVERY history on EVERY well-formed object document is answered as the association
+   list answers it, and after the scope is destroyed the reader stands right behind the object *)
+Definition C03_mp_refines_statement : Prop :=
+  forall narrow widen o data kvs rest h toks c,
+    bytes data -> decode data = Some (MMap kvs, rest) -> doc_ok (MMap kvs) = true ->
+    spec_reqs narrow widen o kvs h = (toks, None, c) ->
+    run_obj_root narrow widen o data h = Done (KOpen :: toks ++ [KClose]) rest.
+
+Lemma mp_refines_refuted : ~ C03_mp_refines_statement.
+Proof.
+  intros H.
+  specialize (H no_narrow id_widen skip_all f14_doc _ _ f14_prog _ _ f14_bytes f14_decodes eq_refl f14_spec).
+  rewrite f14_model in H. discriminate H.
+Qed.
+
+(* full strength: destroying an object scope never terminates the process *)
+Definition C03_close_never_terminates_statement : Prop :=
+  forall narrow widen o data h, bytes data -> run_obj_root narrow widen o data h <> FTerm.
+
+Lemma close_truncated_refuted : ~ C03_close_never_terminates_statement.
+Proof.
+  intros H. apply (H no_narrow id_widen skip_all [0x81] RNil); [repeat constructor | exact f17_model].
+Qed.
+
+Lemma close_outside narrow widen o data kvs rest h toks :
+  bytes data -> decode data = Some (MMap kvs, rest) -> doc_ok (MMap kvs) = true ->
+  spec_reqs narrow widen o kvs h = (toks, None, true) ->
+  run_obj_root narrow widen o data h <> FTerm.
+Proof. intros Hb Hd Hok Hs. rewrite (obj_root_refines narrow widen o data kvs rest h toks Hb Hd Hok Hs). discriminate. Qed.
+
+Lemma requests_keep_cursor narrow widen o r body kvs rend :
+  bytes body -> olayout body kvs rend -> doc_ok (MMap kvs) = true ->
+  forall st p, cursor body kvs rend st p ->
+  forall toks, spec_req narrow widen o kvs r = (toks, None, true) ->
+  exists st' p', run_req narrow widen o r st p = (toks, Go st' p') /\ cursor body kvs rend st' p'.
+Proof. exact (proj1 (programs_refine narrow widen o) r body kvs rend). Qed.
+
+Lemma cursor_bounds body kvs rend st p : cursor body kvs rend st p ->
+  o_index st <= o_size st /\ o_start st = body /\ o_size st = N.of_nat (length kvs).
+Proof. apply cursor_index. Qed.
+
+Lemma arr_scope_counts_skip narrow widen o data vs rest ts :
+  o_mismatch o = PSkip -> o_overflow o = PSkip ->
+  bytes data -> decode data = Some (MArr vs, rest) -> doc_ok (MArr vs) = true ->
+  (length ts <= length vs)%nat ->
+  forallb (fun tv => negb (bad_ts (fst tv) (snd tv))) (combine ts vs) = true ->
+  exists body p,
+    read_array_size o data = ROk (N.of_nat (length vs)) body /\
+    run_areqs narrow widen o (gets ts) (mkA (N.of_nat (length vs)) 0) body =
+      (map (fun tv => tok_of_tres (typed_spec narrow widen o (fst tv) (snd tv))) (combine ts vs),
+       Go (mkA (N.of_nat (length vs)) (N.of_nat (length ts))) p) /\
+    alayout p (skipn (length ts) vs) rest.
+Proof.
+  intros Hm Ho Hb Hd Hok Hl Hnb.
+  pose proof (gets_spec_skip narrow widen o Hm Ho ts vs Hl Hnb) as Hs.
+  destruct (arr_scope_counts narrow widen o data vs rest (gets ts) _ _ Hb Hd Hok Hs) as [body [idx [p [Hr [Hrun [Hi HL]]]]]].
+  exists body, p. split; [exact Hr|]. split; [|exact HL].
+  rewrite Hrun. rewrite skipn_length in Hi. do 3 f_equal. lia.
+Qed.
+
+(* ---------- examples: the hypotheses are satisfiable, the conclusions non-trivial ---------- *)
+(* {"k": 5, 7: {"x": nil}, "arr": [1, "s"], "b": bin(1,2)} followed by 0x2a *)
+Definition ex_doc : list N :=
+  [0x84; 0xA1; 0x6B; 0x05; 0x07; 0x81; 0xA1; 0x78; 0xC0; 0xA3; 0x61; 0x72; 0x72; 0x92; 0x01; 0xA1; 0x73;
+   0xA1; 0x62; 0xC4; 0x02; 0x01; 0x02; 0x2A].
+Definition ex_kvs : list (mpv * mpv) :=
+  [(MStr [0x6B], MInt 5); (MInt 7, MMap [(MStr [0x78], MNil)]); (MStr [0x61; 0x72; 0x72], MArr [MInt 1; MStr [0x73]]);
+   (MStr [0x62], MBin [1; 2])].
+(* requests in reverse order, an absent key, a repeated key, VisitKeys, children read to the end *)
+Definition ex_prog : reqs :=
+  RCons (RBin (QStr [0x62]) 2)
+ (RCons (RArr (QStr [0x61; 0x72; 0x72]) (ACons (AGet (TgInt s32)) (ACons (AGet TgStr) (ACons AEnd ANil))))
+ (RCons (RGet (QStr [0x7A]) TgStr)
+ (RCons (RObj (QU 7) (RCons RVisit RNil))
+ (RCons (RGet (QStr [0x6B]) (TgInt s32))
+ (RCons (RGet (QStr [0x6B]) TgStr) RNil))))).
+
+Lemma ex_decodes : decode ex_doc = Some (MMap ex_kvs, [0x2A]).
+Proof. vm_compute. reflexivity. Qed.
+Lemma ex_doc_ok : doc_ok (MMap ex_kvs) = true.
+Proof. vm_compute. reflexivity. Qed.
+Lemma ex_bytes : bytes ex_doc.
+Proof. unfold ex_doc. repeat constructor. Qed.
+Lemma ex_spec : spec_reqs no_narrow id_widen skip_all ex_kvs ex_prog =
+  ([KOpen; KByte 1; KByte 2; KClose; KOpen; KVal (VInt 1); KVal (VStr [0x73]); KIsEnd true; KClose; KFalse;
+    KOpen; KKeys [KStr [0x78]]; KClose; KVal (VInt 5); KFalse], None, true).
+Proof. vm_compute. reflexivity. Qed.
+Lemma ex_run : run_obj_root no_narrow id_widen skip_all ex_doc ex_prog =
+  Done (KOpen :: [KOpen; KByte 1; KByte 2; KClose; KOpen; KVal (VInt 1); KVal (VStr [0x73]); KIsEnd true; KClose; KFalse;
+    KOpen; KKeys [KStr [0x78]]; KClose; KVal (VInt 5); KFalse] ++ [KClose]) [0x2A].
+Proof. exact (obj_root_refines no_narrow id_widen skip_all ex_doc ex_kvs [0x2A] ex_prog _ ex_bytes ex_decodes ex_doc_ok ex_spec). Qed.
+
+(* [ "x", 2, 3 ] read into three int32 targets under Skip: the first is skipped, the others load from their own bytes *)
+Lemma ex_array : run_arr_root no_narrow id_widen skip_all [0x93; 0xA1; 0x78; 0x02; 0x03; 0x07]
+    (gets [TgInt s32; TgInt s32; TgInt s32]) =
+  Done [KOpen; KFalse; KVal (VInt 2); KVal (VInt 3); KClose] [0x07].
+Proof. vm_compute. reflexivity. Qed.
